@@ -510,6 +510,22 @@ def writeEvents (cfg : Config) (plan : Nat → Fault) : Active → Batch → St 
     | .crash s => (.crashed, none, s)
     | .ok a s => writeEvents cfg plan a (b.advance e) s rest
 
+/-- After a failed write (lib.rs:887-914): the events written before it are not part of the retry, so — when there
+    are any (`batch.remaining_bytes != written_bytes`) — they are flushed and synced before the file is let go of;
+    a failure of either gives the batch up (`no_retry`), like a failed sync after a complete write. `b` is the
+    batch as `on_batch` received it, `b'` the batch with the cursor on the event whose write failed. -/
+def syncWritten (plan : Nat → Fault) (n : List Nat) (b b' : Batch) (s : St) : Res × St :=
+  if b'.remaining ≠ b.remaining then
+    match flushFile plan s with
+    | .err s => (.noRetry, s)
+    | .crash s => (.crashed, s)
+    | .ok () s =>
+      match syncAll plan n s with
+      | .err s => (.noRetry, s)
+      | .crash s => (.crashed, s)
+      | .ok () s => (.retry b', s)
+  else (.retry b', s)
+
 /-- `Worker::on_batch` (lib.rs:745-915). -/
 def onBatch (cfg : Config) (plan : Nat → Fault) (now : Parts) (id : Nat) (b : Batch) (s : St) : Res × St :=
   match acquire cfg plan now id b s with
@@ -526,7 +542,17 @@ def onBatch (cfg : Config) (plan : Nat → Fault) (now : Parts) (id : Nat) (b : 
         | .err s => (.noRetry, s)
         | .crash s => (.crashed, s)
         | .ok () s => (.ok, { s with active := some a })
+    | (.retry b', _, s) => syncWritten plan a.name b b' s
     | (r, _, s) => (r, s)
+
+/-- The batcher's retry loop around `on_batch` (emit_batcher lib.rs:412-455): one `(now, id)` clock / id reading per
+    attempt; a `retry` re-submits the batch that came back; running out of attempts leaves the batch unfinished. -/
+def processBatch (cfg : Config) (plan : Nat → Fault) : List (Parts × Nat) → Batch → St → Res × St
+  | [], b, s => (.retry b, s)
+  | (now, id) :: rest, b, s =>
+    match onBatch cfg plan now id b s with
+    | (.retry b', s') => processBatch cfg plan rest b' s'
+    | r => r
 
 /-- Dropping the worker and constructing a new one over the same directory. -/
 def restart (s : St) : St := { s with active := none }
